@@ -3,7 +3,7 @@ From Coq Require Import ZArith List.
 Import ListNotations.
 From V Require Import Valid.Hier Valid.Walk Valid.FlatRegion Valid.Run.
 From Coq Require Import Lia.
-From V Require Import Model.Pipe Model.PipeBounded Model.PipeBounded4 Model.Graph Model.Edits Model.Edits2 Model.JoinPath Model.Refine Model.CbPath Model.LoopEdit Model.LoopSpec Model.LoopPath Model.LoopPath2.
+From V Require Import Model.Pipe Model.PipeBounded Model.PipeBounded4 Model.Graph Model.Edits Model.Edits2 Model.JoinPath Model.Refine Model.CbPath Model.LoopEdit Model.LoopSpec Model.LoopPath Model.LoopPath2 Model.TableSpec.
 
 Theorem C06_checker_sound : forall h, c06_check h = true -> CtrlSafe h.
 Proof. exact c06_check_sound. Qed.
@@ -161,3 +161,17 @@ Proof.
            latch sexit bv names g2 true).
 Qed.
 Print Assumptions C06_multi_header_loop_rotation_ctrl_safe.
+
+(* value tables stay in step with the successors under every renaming: when a branching block has its
+   successors replaced position by position (each kept or replaced by a name that was no successor),
+   the rewritten table still names only successors and names every successor - for every table with
+   distinct keys and every tuple of distinct successors (SyntheticBranch.replace_jump_targets) *)
+Theorem C06_table_rewrite_keeps_tables_ok :
+  forall tbl all_old new_jt res,
+    NoDup (map fst tbl) -> length new_jt = length all_old ->
+    (forall k s t, nth_error all_old k = Some s -> nth_error new_jt k = Some t -> t = s \/ ~ In t all_old) ->
+    NoDup all_old ->
+    table_rewrite tbl all_old new_jt all_old 0%nat [] = Some res ->
+    table_ok_for tbl all_old -> table_ok_for res new_jt.
+Proof. exact table_rewrite_keeps_ok. Qed.
+Print Assumptions C06_table_rewrite_keeps_tables_ok.
